@@ -61,7 +61,8 @@ def gen_text(r, m, nonascii):
     toks = []
     for _ in range(r.randint(0, 8)):
         c = [old, old + "x", "x" + old, old + ".q", "z." + old, "(" + old + ")", new, '"' + old + '"',
-             ident(r), old + "." + old, old.split(".")[0], "." + old, old + "1", "_" + old]
+             ident(r), old + "." + old, old.split(".")[0], "." + old, old + "1", "_" + old,
+             old.replace(".", "_"), old.replace(".", "a"), old.replace(".", "("), old.replace(".", " .")]
         if nonascii:
             c += [old + r.choice(NONASCII_WORD), r.choice(NONASCII_WORD) + old,
                   old + r.choice(NONASCII_NONWORD), r.choice(NONASCII_NONWORD) + old]
